@@ -215,6 +215,13 @@ def main():
                 r["_inst"] = inst
                 r["_mutant"] = mu
                 results.append(r)
+        # tool hiccups under load (a killed goto-instrument, a missing b.gb) are retried once, alone
+        for k, r in enumerate(list(results)):
+            if r["status"] == "machinery" and not re.search(r"slice|signature|conformance|constant|loop structure|does not apply|resolves to", r["reason"]):
+                r2 = unitrun.run_instance(r["_inst"], a.tier, scratch, False, r["_mutant"])
+                r2["_inst"], r2["_mutant"] = r["_inst"], r["_mutant"]
+                r2["retried_after"] = r["reason"][:200]
+                results[k] = r2
         bounded = [run_bounded(b, a.tier, scratch) for b in pdoc.get("bounded", []) if not a.only]
 
         known = load_known()
